@@ -201,6 +201,17 @@ def priors():
     yield 'hostile_names_stale', lambda: hostile('stale')
     yield 'hostile_names_unlisted', lambda: hostile('none')
 
+    # one file per Unicode whitespace code point (everything str.split() separates on) and a few other control
+    # characters: the writer must escape each of them, or the written line re-parses with shifted fields
+    WS = [chr(c) for c in range(1, 0x3001) if chr(c).isspace()] + ['\x01', '\x7f', '\x9f']
+    HOSTILE_WS = {f'w{c}s': ('ws%04x' % ord(c)).encode() for c in WS}
+
+    def hostile_ws(listed):
+        items = [_F(p) for p in sorted(HOSTILE_WS)] if listed else []
+        return Scenario(HOSTILE_WS, [MSpec(TOP, items)])
+    yield 'hostile_ws_listed', lambda: hostile_ws(True)
+    yield 'hostile_ws_unlisted', lambda: hostile_ws(False)
+
     def prunable_pairs():
         # two dot-directories and two IGNOREd directories that are neighbours in any sorted listing; the
         # second IGNOREd directory holds a valid Manifest and a symlink loop nobody may ever walk into
